@@ -26,13 +26,23 @@ theorem shiftScale1_undo_do (shift scale : Rat) (hs : scale ≠ 0) (a : Rat) :
 
 /-! ### min-max -/
 
+theorem minmax1_do_of_ne (lo hi : Rat) (h : hi ≠ lo) (v : Rat) :
+    minmax1 lo hi .doIt v = (v - lo) / (hi - lo) := by
+  simp only [minmax1, if_neg h]
+
+/-- A null range maps everything onto 0 (F6 repaired). -/
+theorem minmax1_do_null (lo : Rat) (v : Rat) : minmax1 lo lo .doIt v = 0 := by
+  simp only [minmax1, if_true]
+
 theorem minmax1_strictMono (lo hi : Rat) (h : lo < hi) (a b : Rat) (hab : a < b) :
     minmax1 lo hi .doIt a < minmax1 lo hi .doIt b := by
-  simp only [minmax1]
+  rw [minmax1_do_of_ne lo hi (by intro e; rw [e] at h; exact lt_irrefl _ h),
+    minmax1_do_of_ne lo hi (by intro e; rw [e] at h; exact lt_irrefl _ h)]
   exact div_lt_div_of_pos_right (by linarith) (by linarith)
 
 theorem minmax1_undo_do (lo hi : Rat) (h : lo ≠ hi) (a : Rat) :
     minmax1 lo hi .undo (minmax1 lo hi .doIt a) = a := by
+  rw [minmax1_do_of_ne lo hi (fun e => h e.symm)]
   simp only [minmax1]
   have : hi - lo ≠ 0 := fun h' => h (by linarith)
   field_simp
@@ -40,7 +50,7 @@ theorem minmax1_undo_do (lo hi : Rat) (h : lo ≠ hi) (a : Rat) :
 
 theorem minmax1_range (lo hi : Rat) (h : lo < hi) (a : Rat) (h0 : lo ≤ a) (h1 : a ≤ hi) :
     0 ≤ minmax1 lo hi .doIt a ∧ minmax1 lo hi .doIt a ≤ 1 := by
-  simp only [minmax1]
+  rw [minmax1_do_of_ne lo hi (by intro e; rw [e] at h; exact lt_irrefl _ h)]
   have hp : 0 < hi - lo := by linarith
   refine ⟨div_nonneg (by linarith) hp.le, ?_⟩
   rw [div_le_one hp]
